@@ -68,6 +68,7 @@ fn main() {
         ["c15", "record", runs, path] => c15::record(runs.parse().unwrap(), path),
         ["c15", "replay", cases, path] => c15::replay(cases, path),
         ["c15", "atoms", path] => c15::atoms(path),
+        ["c15", "concretise", path] => c15::concretise(path),
         ["c17", "replay", path] => c17::replay(path),
         ["c17", "probe", text] => c17::probe(text),
         ["c17", "types", path] => c17::types(path),
